@@ -86,3 +86,7 @@ package gitinterface
 //@   assigns ghost repoEpoch
 //@   ensures err != nil ==> repoEpoch == old(repoEpoch)
 //@   ensures err == nil ==> repoEpoch == old(repoEpoch) + 1 && c == rRef(r, repoEpoch, localRef) && !c.IsZero() && treeHasPath(ctree(c), localPath) && treePathID(ctree(c), localPath) == upstreamContent(upstreamCommitID, upstreamPath)
+
+//@ func (*Repository).ReadBlob -> (b, err)
+//@   trusted
+//@   pure
